@@ -44,7 +44,8 @@ impl Matcher for DeleteMatcher {
             Ok(()) => true,
             Err(e) => {
                 matcher_io.set_exit_code(1);
-                writeln!(&mut stderr(), "Failed to delete {path_str}: {e}").unwrap();
+                // A diagnostic that cannot be written must not stop the walk.
+                let _ = writeln!(&mut stderr(), "Failed to delete {path_str}: {e}");
                 false
             }
         }
